@@ -61,6 +61,14 @@ def run_property(prop, tier, seed, ck, no_bounded=False):
             if o['status'] in ('undecided', 'vacuous'):
                 undecided.append(f"obligation {o['name']} {o['status']}: {o.get('reason', '')}")
 
+    # ------------------------------------------------------------------ engine A fidelity: CPython cross-check (thorough tier)
+    if contracts and tier == 'thorough':
+        from pyvc import crosscheck
+        xc = crosscheck.run(n_per_template=12, seed=seed)
+        cov['engine_crosscheck'] = {k: xc[k] for k in ('checked', 'unsupported', 'n_disagreements', 'disagreements')}
+        if xc['n_disagreements']:
+            raise RuntimeError('pyvc disagrees with CPython on concrete expressions: ' + json.dumps(xc['disagreements'][:3]))
+
     # ------------------------------------------------------------------ engine B: frames
     frame_obls = []
     for modname in cfg.get('frames', []):
